@@ -348,6 +348,11 @@ class Interp:
             eager = self._eager_comprehension(e, st, fr)
             if eager is not None:
                 return dedupe(eager)
+            chook = getattr(self.domain, "comprehension", None)
+            if chook is not None:
+                got = chook(self, e, st, fr)
+                if got is not None:
+                    return dedupe(got)
             v = self.domain.load_attr(["<comprehension>", e], st, fr)
             return [val(TOP if v is None else v, st)]
         if isinstance(e, ast.NamedExpr):
